@@ -37,3 +37,19 @@ def txn(rnd, with_fields=True, desc=None):
 
 def pool(rnd, n, with_fields=True):
     return [txn(rnd, with_fields) for _ in range(n)]
+
+
+def field_twins(rnd, txns, k=4):
+    """Copies of k pool transactions that keep description, amount, date, source and location and differ only in custom field values."""
+    out = []
+    for t in rnd.sample(txns, min(k, len(txns))):
+        if not t.get('field'):
+            continue
+        u = dict(t, field=dict(t['field']))
+        which = rnd.randrange(3)
+        if which in (0, 2):
+            u['field']['memo'] = rnd.choice(MEMOS)
+        if which in (1, 2):
+            u['field']['code'] = rnd.choice(CODES)
+        out.append(u)
+    return out
